@@ -484,6 +484,7 @@ func addFilesToArgsMappings(fpath string, debug bool, fqname string,
 	argToFiles map[string]map[string]struct{}) {
 	// fpath is an entry of the job's files directory.
 	realRoot, rootErr := filepath.EvalSymlinks(filepath.Dir(fpath))
+	root := fpath
 	if err := util.Walk(fpath, func(fpath string, info os.FileInfo, err error) error {
 		// We can't just short-circuit directories here, because
 		// for example an argument might refer to files/foo which
@@ -538,10 +539,15 @@ func addFilesToArgsMappings(fpath string, debug bool, fqname string,
 				"%s does not reference file\n%s",
 				fqname, fpath)
 		}
-		if info.IsDir() && rootErr == nil {
+		if (info.IsDir() || fpath == root) && rootErr == nil {
 			// A link to a directory which is not below this one is an
 			// entry of its own: what it points to is not ours to remove.
 			if li, err := os.Lstat(fpath); err == nil && li.Mode()&os.ModeSymlink != 0 {
+				if !info.IsDir() {
+					// A link to a file: only the link would go.
+					entry.size = li.Size()
+					return nil
+				}
 				if real, err := filepath.EvalSymlinks(fpath); err != nil ||
 					!pathIsInside(real, realRoot) {
 					// Only the link would go, not what it points to.
@@ -697,8 +703,8 @@ func (metadata *Metadata) getStartTime() time.Time {
 }
 
 // Like util.Walk, except that a symbolic link is just that, also when it is
-// the path given: what is removed from a temporary directory is the link, not
-// what it points to.
+// the path given: what is removed from a temporary directory, or from the
+// files of a chunk, is the link, not what it points to.
 func walkTemp(p string, walkFn filepath.WalkFunc) error {
 	if info, err := os.Lstat(p); err == nil && info.Mode()&os.ModeSymlink != 0 {
 		return walkFn(p, info, nil)
@@ -1014,7 +1020,7 @@ func (self *Fork) vdrKill(partialKill *PartialVdrKillReport) *VDRKillReport {
 	}
 	// Sum up the path size.
 	for _, p := range killPaths {
-		if err := util.Walk(p, func(_ string, info os.FileInfo, err error) error {
+		if err := walkTemp(p, func(_ string, info os.FileInfo, err error) error {
 			if err == nil {
 				killReport.Size += uint64(info.Size())
 				killReport.Count++
